@@ -951,6 +951,231 @@ func coqCases(res *runResult, run int, sb *strings.Builder, n *int) (shards int)
 	return
 }
 
+// waitCases: one Coq case per completed, uncancelled call with early_return off — the responses
+// that were delivered to its channel (log order) and what the call returned.
+func waitCases(res *runResult, sb *strings.Builder, n *int) {
+	p := res.plan
+	if p.Cfg.Early || res.hang != "" {
+		return
+	}
+	sk := res.sink
+	vidToK := map[int]int{}
+	for _, e := range res.log {
+		if e.Kind == "send" {
+			for _, ex := range sk.exports {
+				if ex.Data == e.Req {
+					vidToK[e.Export] = ex.K
+				}
+			}
+		}
+	}
+	waiterOf := map[int]int{}
+	for _, e := range res.log {
+		if e.Kind == "recv" {
+			var id int
+			if _, err := fmt.Sscan(e.DataID, &id); err == nil {
+				waiterOf[id] = e.Waiter
+			}
+		}
+	}
+	for _, rp := range p.Reqs {
+		w, ok := waiterOf[rp.ID]
+		if !ok || !rp.returned || rp.skipped || rp.start > res.shutStart || w == 0 {
+			continue
+		}
+		if rp.cancelSeq != 0 && rp.cancelSeq < rp.end {
+			continue
+		}
+		var rs []string
+		wraps := true
+		for _, e := range res.log {
+			if e.Kind == "respond" && e.Waiter == w && e.Done {
+				k, ok := vidToK[e.Export]
+				errs := "None"
+				if ok && sk.exports[k].Err != nil {
+					errs = fmt.Sprintf("(Some %d%%N)", k+1)
+					if rp.err == nil || !errors.Is(rp.err, sk.exports[k].Err) {
+						wraps = false
+					}
+				}
+				rs = append(rs, fmt.Sprintf("{| r_err := %s; r_count := %d |}", errs, e.Num))
+			}
+		}
+		if *n > 0 {
+			sb.WriteString(";\n")
+		}
+		fmt.Fprintf(sb, " (%d%%Z, [%s], %v, %v)", rp.Items, strings.Join(rs, "; "), rp.err == nil, wraps)
+		*n++
+	}
+}
+
+// tenantCases: per run with metadata keys — which requests shared a shard, what metadata the
+// exports saw, which combinations were admitted / refused.
+func tenantCases(res *runResult, kb, ab *strings.Builder, nk, na *int) {
+	p := res.plan
+	if len(p.Cfg.MetaKeys) == 0 || res.hang != "" {
+		return
+	}
+	in := res.in
+	res.sink.mu.Lock()
+	defer res.sink.mu.Unlock()
+	keys := make([]string, len(p.Cfg.MetaKeys))
+	for i, k := range p.Cfg.MetaKeys {
+		keys[i] = strings.ToLower(k)
+	}
+	sort.Strings(keys)
+	kid := func(k string) uint64 { return in.ID("key:" + k) }
+	mdCoq := func(md map[string][]string) string {
+		var parts []string
+		var ks []string
+		for k := range md {
+			ks = append(ks, k)
+		}
+		sort.Strings(ks)
+		for _, k := range ks {
+			var vs []string
+			for _, v := range md[k] {
+				vs = append(vs, fmt.Sprint(in.ID("val:"+v)+1))
+			}
+			parts = append(parts, fmt.Sprintf("(%d, [%s])", kid(strings.ToLower(k)), strings.Join(vs, ";")))
+		}
+		return "[" + strings.Join(parts, "; ") + "]"
+	}
+	var kids []string
+	for _, k := range keys {
+		kids = append(kids, fmt.Sprint(kid(k)))
+	}
+	shardOf := map[int]int{}
+	for _, e := range res.log {
+		if e.Kind == "recv" {
+			var id int
+			if _, err := fmt.Sscan(e.DataID, &id); err == nil {
+				shardOf[id] = e.Shard
+			}
+		}
+	}
+	var reqs []string
+	refused := false
+	var admitted []string
+	for _, rp := range p.Reqs {
+		if sh, ok := shardOf[rp.ID]; ok {
+			reqs = append(reqs, fmt.Sprintf("(%s, %d)", mdCoq(rp.Meta), sh))
+			admitted = append(admitted, fmt.Sprint(in.ID("combo:"+comboKey(p.Cfg.MetaKeys, rp.Meta))))
+		}
+		if rp.err != nil && strings.Contains(rp.err.Error(), "too many batcher") {
+			refused = true
+		}
+	}
+	// exports: (shard of the send, metadata seen by the downstream consumer)
+	var exps []string
+	for _, e := range res.log {
+		if e.Kind == "send" {
+			for _, ex := range res.sink.exports {
+				if ex.Data == e.Req {
+					exps = append(exps, fmt.Sprintf("(%d, %s)", e.Shard, mdCoq(ex.Meta)))
+				}
+			}
+		}
+	}
+	if *nk > 0 {
+		kb.WriteString(";\n")
+	}
+	fmt.Fprintf(kb, " ([%s], [%s], [%s])", strings.Join(kids, ";"), strings.Join(reqs, "; "), strings.Join(exps, "; "))
+	*nk++
+	if *na > 0 {
+		ab.WriteString(";\n")
+	}
+	fmt.Fprintf(ab, " (%d, [%s], %v)", p.Cfg.MetaLimit, strings.Join(admitted, ";"), refused)
+	*na++
+}
+
+// ltsCases: the run's event log as a trace of the protocol LTS (Batch/Lts.v).
+func ltsCases(res *runResult, sb *strings.Builder, n *int) {
+	p := res.plan
+	if res.hang != "" {
+		return
+	}
+	var evs []string
+	known := map[int]bool{}
+	decided := map[int]int{} // shard -> vid waiting for its Acquire
+	idx := map[int]int{}     // vid -> export index in the model
+	need := map[int]int{}    // vid -> responses still expected before Finish
+	shut := map[int]bool{}
+	called := false
+	nexp := 0
+	acquire := func(sh int) {
+		if vid, ok := decided[sh]; ok {
+			evs = append(evs, fmt.Sprintf("Acquire %d", sh-1))
+			idx[vid] = nexp
+			nexp++
+			delete(decided, sh)
+		}
+	}
+	shardOfVid := map[int]int{}
+	for _, e := range res.log {
+		switch e.Kind {
+		case "recv", "timer", "shutdown", "send":
+			if !known[e.Shard] {
+				known[e.Shard] = true
+				evs = append(evs, "NewShard")
+			}
+			acquire(e.Shard)
+			if e.Kind == "shutdown" {
+				if !called {
+					called = true
+					evs = append(evs, "CallShutdown")
+				}
+				shut[e.Shard] = true
+			}
+			if e.Kind == "send" {
+				evs = append(evs, fmt.Sprintf("Decide %d", e.Shard-1))
+				decided[e.Shard] = e.Export
+				shardOfVid[e.Export] = e.Shard
+				if p.Cfg.Early {
+					need[e.Export] = 0
+				} else {
+					need[e.Export] = len(e.Tuples)
+				}
+			}
+		case "export_start":
+			if decided[shardOfVid[e.Export]] == e.Export {
+				acquire(shardOfVid[e.Export])
+			}
+		case "export_end":
+			if decided[shardOfVid[e.Export]] == e.Export {
+				acquire(shardOfVid[e.Export])
+			}
+			evs = append(evs, fmt.Sprintf("ExportEnd %d", idx[e.Export]))
+			if need[e.Export] == 0 {
+				evs = append(evs, fmt.Sprintf("Finish %d", idx[e.Export]))
+			}
+		case "respond":
+			need[e.Export]--
+			if need[e.Export] == 0 {
+				evs = append(evs, fmt.Sprintf("Finish %d", idx[e.Export]))
+			}
+		}
+	}
+	var shards []int
+	for sh := range known {
+		shards = append(shards, sh)
+	}
+	sort.Ints(shards)
+	if !called {
+		evs = append(evs, "CallShutdown")
+	}
+	for _, sh := range shards {
+		acquire(sh)
+		evs = append(evs, fmt.Sprintf("LoopExit %d", sh-1))
+	}
+	evs = append(evs, "ShutdownReturn")
+	if *n > 0 {
+		sb.WriteString(";\n")
+	}
+	fmt.Fprintf(sb, " (%d, [%s])", p.Cfg.MaxConc, strings.Join(evs, "; "))
+	*n++
+}
+
 func runSys(r *Rng, n int, focus, replay string, out *Output) {
 	var sb strings.Builder
 	sb.WriteString(`Definition case_t := {d : nat & (cfg * list (ev d) * list (send d) * list (bool * N))%type}.
@@ -963,6 +1188,16 @@ Definition case2 (cf : cfg) (evs : list (ev 2)) (obs : list (send 2)) (ctxs : li
 Definition sys_cases : list case_t := [
 `)
 	ncase := 0
+	var wb strings.Builder
+	wb.WriteString("Definition wait_cases : list (Z * list resp * bool * bool) := [\n")
+	nwait := 0
+	var kb, ab strings.Builder
+	kb.WriteString("Definition key_cases : list (list N * list (metadata * N) * list (N * metadata)) := [\n")
+	ab.WriteString("Definition adm_cases : list (N * list N * bool) := [\n")
+	nkey, nadm := 0, 0
+	var lb strings.Builder
+	lb.WriteString("Definition lts_cases : list (N * list lev) := [\n")
+	nlts := 0
 	stats := map[string]int{}
 	for i := 0; i < n; i++ {
 		p := genPlan(r.Fork(), focus)
@@ -972,6 +1207,9 @@ Definition sys_cases : list case_t := [
 		shards := 0
 		if res.hang == "" {
 			shards = coqCases(res, i, &sb, &ncase)
+			waitCases(res, &wb, &nwait)
+			tenantCases(res, &kb, &ab, &nkey, &nadm)
+			ltsCases(res, &lb, &nlts)
 		}
 		kind := fmt.Sprintf("signal=%d early=%v meta=%v shutdown=%s", p.Cfg.Signal, p.Cfg.Early, len(p.Cfg.MetaKeys) > 0, p.Cfg.Shutdown)
 		obs := map[string]any{"run": i, "cfg": p.Cfg, "requests": len(p.Reqs), "exports": len(res.sink.exports), "shards": shards,
@@ -984,7 +1222,60 @@ Definition sys_cases : list case_t := [
 		}
 	}
 	sb.WriteString("\n].\n")
+	wb.WriteString("\n].\n")
+	kb.WriteString("\n].\n")
+	ab.WriteString("\n].\n")
+	lb.WriteString("\n].\n")
+	out.Coq.WriteString(lb.String())
+	out.Coq.WriteString(`(* every recorded run is a trace of the protocol LTS: each logged step was enabled in the model *)
+Definition lts_mismatch := Eval vm_compute in failing (fun c : N * list lev => accepts (fst c) (snd c)) lts_cases.
+Print lts_mismatch.
+`)
+	out.Coq.WriteString(kb.String())
+	out.Coq.WriteString(ab.String())
+	stats["tenant_cases"] = nkey
+	out.Coq.WriteString(`Definition attr_eqb (a b : attr) : bool :=
+  match a, b with
+  | AString k v, AString k' v' => N.eqb k k' && N.eqb v v'
+  | ASlice k vs, ASlice k' vs' => N.eqb k k' && list_eqb N.eqb vs vs'
+  | _, _ => false
+  end.
+Definition first_of (sh : N) (reqs : list (metadata * N)) : option metadata :=
+  match filter (fun r => N.eqb (snd r) sh) reqs with r :: _ => Some (fst r) | [] => None end.
+(* same shard <-> same attribute set, for every pair of accepted requests; and every export saw the
+   metadata the model derives from the request that created its shard *)
+Definition key_check (c : list N * list (metadata * N) * list (N * metadata)) : bool :=
+  let '(keys, reqs, exps) := c in
+  forallb (fun r1 => forallb (fun r2 =>
+     Bool.eqb (list_eqb attr_eqb (aset keys (fst r1)) (aset keys (fst r2))) (N.eqb (snd r1) (snd r2))) reqs) reqs &&
+  forallb (fun e => match first_of (fst e) reqs with
+                    | Some md => forallb (fun k => list_eqb N.eqb (get (shard_md keys md) k) (get (snd e) k)) keys
+                    | None => false end) exps.
+(* the property on the real observations: every export's visible metadata agrees with every request of its shard *)
+Definition key_prop (c : list N * list (metadata * N) * list (N * metadata)) : bool :=
+  let '(keys, reqs, exps) := c in
+  forallb (fun e => forallb (fun r => negb (N.eqb (snd r) (fst e)) ||
+                       forallb (fun k => list_eqb N.eqb (get (fst r) k) (get (snd e) k)) keys) reqs) exps.
+Definition adm_prop (c : N * list N * bool) : bool := let '(limit, adm, refused) := c in admission_okb limit adm refused.
+Definition key_mismatch := Eval vm_compute in failing key_check key_cases.
+Definition key_propfail := Eval vm_compute in failing key_prop key_cases.
+Definition adm_propfail := Eval vm_compute in failing adm_prop adm_cases.
+Print key_mismatch.
+Print key_propfail.
+Print adm_propfail.
+`)
 	out.Coq.WriteString(sb.String())
+	out.Coq.WriteString(wb.String())
+	stats["wait_cases"] = nwait
+	out.Coq.WriteString(`Definition wait_check (c : Z * list resp * bool * bool) : bool :=
+  let '(n, rs, obs_nil, wraps) := c in
+  match wait_run n (map GotResp rs) with
+  | Returned errs false => Bool.eqb (match errs with [] => true | _ => false end) obs_nil && wraps
+  | _ => false
+  end.
+Definition wait_mismatch := Eval vm_compute in failing wait_check wait_cases.
+Print wait_mismatch.
+`)
 	out.Coq.WriteString(`Definition tuple_eqb (a b : tuple) : bool :=
   N.eqb (tp_waiter a) (tp_waiter b) && N.eqb (tp_count a) (tp_count b) && N.eqb (tp_ctx a) (tp_ctx b).
 Definition send_eqb (d : nat) (a b : send d) : bool :=
@@ -1068,7 +1359,11 @@ Print systuple_propfail.
 	case "C09":
 		out.Lists = append(out.Lists, "syssize_mismatch", "syssize_propfail")
 	case "C06":
-		out.Lists = append(out.Lists, "systuple_mismatch", "systuple_propfail")
+		out.Lists = append(out.Lists, "systuple_mismatch", "systuple_propfail", "wait_mismatch")
+	case "C10":
+		out.Lists = append(out.Lists, "key_mismatch", "key_propfail", "adm_propfail")
+	case "C11":
+		out.Lists = append(out.Lists, "lts_mismatch")
 	default:
 		out.Lists = append(out.Lists, "sys_mismatch")
 	}
